@@ -45,6 +45,7 @@ class Profile:
     p_model_shape: float = 0.2       # falsy model object
     p_listener_kind: float = 0.3     # listeners that compare equal / generic hooks objects
     p_write: float = 0.0             # per op: somebody assigns the model field directly
+    p_alias_sub: float = 0.12        # per scenario: an event re-declared under a second name by a subclass
 
 
 def gen_machine(rng: random.Random, P: Profile, scn: Scn):
@@ -95,6 +96,19 @@ def gen_machine(rng: random.Random, P: Profile, scn: Scn):
                 evs.append(e)
             pos = rng.randint(0, len(trans))
             trans.insert(pos, Tr(0, rng.randrange(n), [e], any=True))
+    if rng.random() < P.p_alias_sub:
+        single = [e for e in evs if all((not t.any) and t.events == [e] for t in trans if e in t.events)
+                  and any(e in t.events for t in trans)]
+        spare = [x for x in range(1, len(EVENTS)) if x not in evs]
+        if single and spare:
+            e1, e2 = rng.choice(single), rng.choice(spare)
+            # `e2 = Base.e1` in the subclass *renames* the event on those transitions: they carry e2 only;
+            # e1 stays a declared event without transitions, its before_/on_/after_ callbacks must never run
+            for t in trans:
+                if t.events == [e1]:
+                    t.events = [e2]
+            evs.append(e2)
+            scn.alias_sub = [e1, e2]
     scn.trans = trans
     return evs
 
